@@ -61,75 +61,79 @@ func readAll(r storage.KVPairReader, buf int) []*storage.KVPair {
 func BPlus() {
 	real := bplus.NewBPlusTreeStore()
 	model := models.NewMemStore()
-	ops := 1 + rt.Choose("ops", rt.Param("OPS", 3))
-	for i := 0; i < ops; i++ {
-		pre := fmt.Sprintf("op%d", i)
-		switch rt.Choose(pre, 5) {
-		case 0: // Mutate
-			m := 1 + rt.Choose(pre+"-n", rt.Param("BATCH", 2))
-			var ms []*storage.Mutation
-			for j := 0; j < m; j++ {
-				ms = append(ms, &storage.Mutation{Table: symTable(fmt.Sprintf("%s-t%d", pre, j)), Key: symKey(fmt.Sprintf("%s-k%d", pre, j)), Value: rt.Bytes(fmt.Sprintf("%s-v%d", pre, j), 1)})
+	// phase 1: up to WRITES entries written in batches of 1..BATCH mutations
+	writes := 1 + rt.Choose("writes", rt.Param("WRITES", 3))
+	w := 0
+	for w < writes {
+		m := 1 + rt.Choose(fmt.Sprintf("batch@%d", w), rt.Param("BATCH", 2))
+		if w+m > writes {
+			m = writes - w
+		}
+		var ms, cp []*storage.Mutation
+		for j := 0; j < m; j++ {
+			x := &storage.Mutation{Table: symTable(fmt.Sprintf("t%d", w+j)), Key: symKey(fmt.Sprintf("k%d", w+j)), Value: rt.Bytes(fmt.Sprintf("v%d", w+j), 1)}
+			ms = append(ms, x)
+			cp = append(cp, &storage.Mutation{Table: x.Table, Key: append([]byte{}, x.Key...), Value: append([]byte{}, x.Value...)})
+		}
+		rt.Assert(real.Mutate(ms, nil) == nil, "mutate-ok")
+		model.Mutate(cp, nil)
+		w += m
+	}
+	// phase 2: every kind of read on a symbolic table, compared with the model
+	t := symTable("read-table")
+	{
+		k := symKey("get-key")
+		var a *storage.KVPair
+		var err error
+		if !rt.NoPanic(func() { a, err = real.Get(t, k) }, "get") {
+			return
+		}
+		b, errM := model.Get(t, k)
+		rt.Assert((err == nil) == (errM == nil), "get:same-outcome")
+		if err == nil && errM == nil {
+			rt.Assert(bytes.Equal(a.Value, b.Value), "get:last-value-written")
+		} else if err != nil {
+			rt.Assert(err == storage.ErrKeyNotFound, "get:not-found-error")
+		}
+	}
+	{
+		s, e := symKey("range-start"), symKey("range-end")
+		var a storage.KVRange
+		if !rt.NoPanic(func() { a, _ = real.GetRange(t, s, e) }, "get-range") {
+			return
+		}
+		b, _ := model.GetRange(t, s, e)
+		rt.Assert(len(a) == len(b), "range:same-number-of-keys")
+		if len(a) == len(b) {
+			for j := range a {
+				sameKV(&a[j], &b[j], "range")
 			}
-			cp := make([]*storage.Mutation, len(ms))
-			for j, x := range ms {
-				cp[j] = &storage.Mutation{Table: x.Table, Key: append([]byte{}, x.Key...), Value: append([]byte{}, x.Value...)}
+		}
+	}
+	{
+		buf := 1 + rt.Choose("scan-buffer", 2)
+		var a []*storage.KVPair
+		if !rt.NoPanic(func() { a = readAll(real.GetAll(t), buf) }, "get-all") {
+			return
+		}
+		b := readAll(model.GetAll(t), buf)
+		rt.Assert(len(a) == len(b), "scan:every-entry-of-the-table-once")
+		if len(a) == len(b) {
+			for j := range a {
+				sameKV(a[j], b[j], "scan")
 			}
-			rt.Assert(real.Mutate(ms, nil) == nil, "mutate-ok")
-			model.Mutate(cp, nil)
-		case 1: // Get
-			t, k := symTable(pre+"-t"), symKey(pre+"-k")
-			var a *storage.KVPair
-			var err error
-			if !rt.NoPanic(func() { a, err = real.Get(t, k) }, "get") {
-				return
-			}
-			b, errM := model.Get(t, k)
-			rt.Assert((err == nil) == (errM == nil), "get:same-outcome")
-			if err == nil && errM == nil {
-				rt.Assert(bytes.Equal(a.Value, b.Value), "get:last-value-written")
-			} else if err != nil {
-				rt.Assert(err == storage.ErrKeyNotFound, "get:not-found-error")
-			}
-		case 2: // GetRange
-			t, s, e := symTable(pre+"-t"), symKey(pre+"-s"), symKey(pre+"-e")
-			var a storage.KVRange
-			if !rt.NoPanic(func() { a, _ = real.GetRange(t, s, e) }, "get-range") {
-				return
-			}
-			b, _ := model.GetRange(t, s, e)
-			rt.Assert(len(a) == len(b), "range:same-number-of-keys")
-			if len(a) == len(b) {
-				for j := range a {
-					sameKV(&a[j], &b[j], "range")
-				}
-			}
-		case 3: // GetAll
-			t := symTable(pre + "-t")
-			buf := 1 + rt.Choose(pre+"-buf", 2)
-			var a []*storage.KVPair
-			if !rt.NoPanic(func() { a = readAll(real.GetAll(t), buf) }, "get-all") {
-				return
-			}
-			b := readAll(model.GetAll(t), buf)
-			rt.Assert(len(a) == len(b), "scan:every-entry-of-the-table-once")
-			if len(a) == len(b) {
-				for j := range a {
-					sameKV(a[j], b[j], "scan")
-				}
-			}
-		case 4: // GetLast
-			t := symTable(pre + "-t")
-			var a *storage.KVPair
-			var err error
-			if !rt.NoPanic(func() { a, err = real.GetLast(t) }, "get-last") {
-				return
-			}
-			b, errM := model.GetLast(t)
-			rt.Assert((err == nil) == (errM == nil), "last:same-outcome")
-			if err == nil && errM == nil {
-				sameKV(a, b, "last")
-			}
+		}
+	}
+	{
+		var a *storage.KVPair
+		var err error
+		if !rt.NoPanic(func() { a, err = real.GetLast(t) }, "get-last") {
+			return
+		}
+		b, errM := model.GetLast(t)
+		rt.Assert((err == nil) == (errM == nil), "last:same-outcome")
+		if err == nil && errM == nil {
+			sameKV(a, b, "last")
 		}
 	}
 }
